@@ -71,6 +71,12 @@ def adt_path_of(ctx, se, t):
         return ty.path if ty.k == "adt" else None
     if k == "agg" and t[1] == "adt":
         return t[2]
+    if k == "after":
+        return adt_path_of(ctx, se, t[3])
+    if k == "upd":
+        return adt_path_of(ctx, se, t[1])
+    if k in ("deref", "ref", "refv"):
+        return adt_path_of(ctx, se, t[1])
     if k == "field":
         p = adt_path_of(ctx, se, t[1])
         fs = fb.adt_fields(p) if p else None
